@@ -95,10 +95,12 @@ def unit_pose(loaded, gen_dir, ix_smart, summary, lines):
         if not isinstance(v, Mat) or (v.r, v.c) != dims:
             raise Unsupported("returned Pose3D: member %s is not a %dx%d matrix" % ((f,) + dims))
         outs.append((f, v))
-    # the Jacobian: the only 6x6 local of the function (whatever its name)
-    big = [(nm, v) for nm, v in ev.final_scope.items() if isinstance(v, Mat) and (v.r, v.c) == (6, 6) and v.base is v]
+    # the Jacobian: the only 6x6 local of the function that is filled entry by entry / block by block (whatever its name);
+    # 6x6 locals that hold the value of a matrix expression (J * C, ...) are not candidates
+    big = [(nm, v) for nm, v in ev.final_scope.items()
+           if isinstance(v, Mat) and (v.r, v.c) == (6, 6) and v.base is v and not getattr(v, "outlined", False)]
     if len(big) != 1:
-        raise Unsupported("%d local 6x6 matrices (exactly one — the Jacobian — expected)" % len(big))
+        raise Unsupported("%d local 6x6 matrices filled entry-wise (exactly one — the Jacobian — expected)" % len(big))
     outs.append(("jacobian", big[0][1]))
     args = ev.calls.get("rotation3DToEulerAngles")
     if not args or not isinstance(args[0], Mat) or (args[0].r, args[0].c) != (3, 3):
